@@ -39,6 +39,9 @@ pub enum Op {
     CpRevoke(u64),
     Fulfil(u64, u8),
     Restart,
+    /// force close: the current holder commitment of the channel is signed for broadcast (its
+    /// HTLCs stay in flight until they are resolved on chain)
+    ForceClose(u64),
 }
 
 #[derive(Clone, Default, Debug, Serialize)]
@@ -56,6 +59,9 @@ pub struct Ghost {
     /// the approval request was presented a second time (the approved amount stays what it was)
     #[serde(default)]
     pub reapproved: bool,
+    /// channel 1 was force-closed (offered once per history)
+    #[serde(default)]
+    pub force_closed: bool,
 }
 
 pub struct PState {
@@ -198,6 +204,7 @@ fn op_kind(op: &Op) -> &'static str {
         Op::Revoke(_) => "revoke_previous_holder_commitment",
         Op::CpRevoke(_) => "validate_counterparty_revocation",
         Op::Fulfil(..) => "htlcs_fulfilled",
+        Op::ForceClose(_) => "sign_holder_commitment_tx_phase2",
         Op::Restart => "restart",
     }
 }
@@ -269,6 +276,9 @@ impl Model for PayModel {
         }
         if self.holder_letters {
             v.push(Op::Restart);
+            if !s.ghost.force_closed {
+                v.push(Op::ForceClose(1));
+            }
         }
         for d in [1u64, 2] {
             let (nh, nc, nr) = s.counters(d);
@@ -393,6 +403,19 @@ impl Model for PayModel {
                 let sec = s.f[d].cp.secret(nr);
                 let r = s.w().with_chan(*d, |ch| ch.validate_counterparty_revocation(nr, &sec));
                 tag = r.tag();
+                if r.is_panic() {
+                    s.dead = true;
+                    return;
+                }
+            }
+            Op::ForceClose(d) => {
+                let (nh, _, _) = s.counters(*d);
+                let n = nh.saturating_sub(1);
+                let r = s.w().with_chan(*d, |ch| ch.sign_holder_commitment_tx_phase2(n).map(|_| ()));
+                tag = r.tag();
+                if r.is_ok() {
+                    s.ghost.force_closed = true;
+                }
                 if r.is_panic() {
                     s.dead = true;
                     return;
